@@ -3,6 +3,7 @@
 Also decides the SQLite side of C07 (SpecDiscover on the same abstract columns).
 """
 import json
+import math
 import os
 import random
 import sqlite3
@@ -188,9 +189,19 @@ def run(chk):
                 big_ = max((abs(v) for v in nn_), default=0)
                 pert = [('max', big_ * 2 + 1000)] if nn_ and big_ < 2**61 else []       # far beyond (fuzzy bounds are floats), inside SQLite's integers
             else:
-                vals = [rnd.choice([-2.5, 0.0, 1e300, 1e-300, 3.25, None]) for _ in range(rnd.randint(1, 6))]
+                # (values that need 16-17 significant digits; the breaking row is the next representable number beyond the extreme)
+                vals = [rnd.choice([-2.5, 0.0, 1e300, 1e-300, 3.25, None, 0.1 + 0.2, 0.7999999999999999, -(0.1 + 0.2), 1 / 3, 2 / 3,
+                                    31415926535.897934, -0.7999999999999999]) for _ in range(rnd.randint(1, 6))]
                 sqltype = 'REAL'
-                pert = [('min', -1e301)] if any(v is not None for v in vals) else []
+                nnr = [v for v in vals if v is not None]
+                if not nnr:
+                    pert = []
+                elif rnd.random() < 0.35:
+                    pert = [('min', -1e301)]
+                elif rnd.random() < 0.5:
+                    pert = [('max', math.nextafter(max(nnr), math.inf))]
+                else:
+                    pert = [('min', math.nextafter(min(nnr), -math.inf))]
             dbl.make_table(db, 't', colname, sqltype, vals)
             rex = kind in ('text', 'allnull', 'empty') and rnd.random() < 0.6
             if rex and rnd.random() < 0.6:
